@@ -26,7 +26,11 @@ run_one() {
   python3 - "$name" "$id" "$rc" "$sig" "$last" <<'PY'
 import json,sys
 name,pid,rc,sig,last=sys.argv[1:6]
-json.dump({"check":f"./check {pid} --tier quick (scratch worktree via VERIF_REPO)","exit":int(rc),"signature":sig,"run":last,"verdict":{0:"missed",1:"VIOLATION reported",2:"INCONCLUSIVE reported"}.get(int(rc),"?")},open(name+"/result.json","w"),indent=1)
+meta=json.load(open(name+"/meta.json"))
+verdict={0:"missed",1:"VIOLATION reported",2:"INCONCLUSIVE reported"}.get(int(rc),"?")
+if int(rc)==0 and meta.get("not_reached"):
+    verdict="not reached (documented limit: "+meta["not_reached"]+")"
+json.dump({"check":f"./check {pid} --tier quick (scratch worktree via VERIF_REPO)","exit":int(rc),"signature":sig,"run":last,"verdict":verdict},open(name+"/result.json","w"),indent=1)
 PY
   echo -e "$(basename $name)\t$id\texit=$rc\t$sig\t$last"
   git -C $wt checkout -q -- .
@@ -45,4 +49,5 @@ wait
 cat $base/out*.tsv | sort > seeded/RESULTS.tsv
 for j in $(seq 1 $jobs); do git -C /repo worktree remove --force $base/w$j; done
 rm -rf $base target-_tmp_evseed_w* target-mock-_tmp_evseed_w*
-echo "done: $(wc -l < seeded/RESULTS.tsv) changes; missed: $(grep -c 'exit=0' seeded/RESULTS.tsv)"
+doc=0; for n in $(grep 'exit=0' seeded/RESULTS.tsv | cut -f1); do grep -q '"not_reached"' seeded/$n/meta.json && doc=$((doc+1)); done
+echo "done: $(wc -l < seeded/RESULTS.tsv) changes; exit=0: $(grep -c 'exit=0' seeded/RESULTS.tsv) of which documented as not reachable: $doc"
